@@ -328,18 +328,128 @@ class FindLocation:
 
         def contains(k):
             return z3.And(lon >= B(k, 0), lat >= B(k, 1), lon < B(k, 2), lat < B(k, 3))
-        k = c.ctx.fresh_int('k!sk')
+        if c.mode == 'assume':
+            k = z3.Int('k!fl')
+            q = lambda body: z3.ForAll([k], body)
+        else:
+            k = c.ctx.fresh_int('k!sk')
+            q = lambda body: body
+        n = to_z3(n)
         if isinstance(r, Arr):
             yield 'no cell: an empty index array', to_z3(r.shape[0]) == 0
-            yield 'empty result only if no cell contains the point', z3.Implies(z3.And(0 <= k, k < n), z3.Not(contains(k)))
+            yield 'empty result only if no cell contains the point', q(z3.Implies(z3.And(0 <= k, k < n), z3.Not(contains(k))))
         else:
             ri = to_z3(r)
             yield 'returns an index', z3.BoolVal(ri.sort() == z3.IntSort())
             yield 'the reported cell exists', z3.And(0 <= ri, ri < n)
             yield 'the reported cell contains the point (west/south inclusive, east/north exclusive)', contains(ri)
-            yield 'it is the first such cell (the unique one for disjoint cells)', z3.Implies(
-                z3.And(0 <= k, k < ri), z3.Not(contains(k)))
+            yield 'it is the first such cell (the unique one for disjoint cells)', q(z3.Implies(
+                z3.And(0 <= k, k < ri), z3.Not(contains(k))))
 
     def witness(m, p):
         from pyvc.driver import model_value
         return {'bounds': model_value(m, p['_b']), 'lon': model_value(m, p['lon']), 'lat': model_value(m, p['lat'])}
+
+
+# ---------------------------------------------------------------------------------------------------
+# QuadtreeGrid2D.get_index_of over arrays of points (C17 / C03): one index per point, each the first cell that contains it
+# ---------------------------------------------------------------------------------------------------
+from pyvc.contracts import LoopInv
+from pyvc.core import Arr, PyRaise, simp
+
+FL = 'csep.core.regions.QuadtreeGrid2D._find_location'
+
+
+def _fl_result(c, self, lon, lat, _b=None):
+    """modular use of _find_location: an index, or an empty index array when no cell contains the point"""
+    b = c.ctx.fresh_bool('no_cell_contains_the_point')
+    if c.ctx.branch(b):
+        return Arr((0,), lambda ix: 0, 'int64')
+    return c.ctx.fresh_int('cell')
+
+
+def _fl_ensures_call(c, r, self, lon, lat, _b=None):
+    bounds = _b if _b is not None else self.fields['bounds']
+    return FindLocation._ensures_impl(c, r, self, lon, lat, bounds)
+
+
+FindLocation._ensures_impl = staticmethod(FindLocation.ensures)
+FindLocation.ensures = staticmethod(lambda c, r, self, lon, lat, _b=None: FindLocation._ensures_impl(
+    c, r, self, to_real(lon), to_real(lat), _b if _b is not None else self.fields['bounds']))
+FindLocation.result = staticmethod(_fl_result)
+
+
+class QuadLoop(LoopInv):
+    """for i in range(len(lons)): idx = numpy.append(idx, self._find_location(lons[i], lats[i]))
+    invariant: idx has one entry per point seen, entry t is the first cell containing point t"""
+
+    def havoc(self, I, fr, i, it):
+        fresh = I.lib.fresh_arr('idx_loop', (to_z3(i),), 'float64')
+        fr.locals['idx'] = fresh
+        self.F = fresh
+
+    def inv(self, I, fr, i, it):
+        idx = fr.locals['idx']
+        me = fr.locals['self']
+        B = me.fields['bounds'].fun
+        n = to_z3(me.fields['bounds'].shape[0])
+        lons, lats = fr.locals['lons'], fr.locals['lats']
+        if isinstance(idx, list):
+            yield 'no entry before the first point', z3.BoolVal(len(idx) == 0 and simp(to_z3(i) == 0) is True)
+            return
+        yield 'one entry per point seen', to_z3(idx.shape[0]) == to_z3(i)
+
+        def clause(t):
+            v = to_real(idx.f((t,)))
+            k = z3.Int('k!q')
+            lon, lat = to_real(lons.f((t,))), to_real(lats.f((t,)))
+            cell = I.ctx.fresh_int('cell_of') if self.mode == 'prove' else None
+            # v is an integer cell number c with: c in range, c contains the point, no earlier cell does
+            c_ = z3.ToInt(v)
+            contains = lambda kk: z3.And(lon >= B(kk, 0), lat >= B(kk, 1), lon < B(kk, 2), lat < B(kk, 3))
+            return z3.And(z3.ToReal(c_) == v, 0 <= c_, c_ < n, contains(c_),
+                          z3.ForAll([k], z3.Implies(z3.And(0 <= k, k < c_), z3.Not(contains(k)))))
+        if self.mode == 'prove':
+            t = I.ctx.fresh_int('t!sk')
+            yield 'entry t is the first cell that contains point t', z3.Implies(z3.And(0 <= t, t < to_z3(i)), clause(t))
+        else:
+            t = z3.Int('t!inv')
+            yield 'spec', z3.ForAll([t], z3.Implies(z3.And(0 <= t, t < to_z3(i)), clause(t)), patterns=[idx.f((t,))])
+
+
+@contract
+class QuadtreeGetIndexOf:
+    qualname = 'csep.core.regions.QuadtreeGrid2D.get_index_of'
+    case = 'arrays of points all inside the grid'
+    properties = ('C17', 'C03')
+    loops = {0: QuadLoop()}
+
+    def params(c):
+        n, m = c.int('ncells'), c.int('npoints')
+        c.ctx.assume(z3.And(n >= 1, m >= 0))
+        bounds = c.arr2('bounds', 'float64', (n, 4))
+        return dict(self=c.obj('csep.core.regions.QuadtreeGrid2D', bounds=bounds), lons=c.arr('lons', 'float64', n=m),
+                    lats=c.arr('lats', 'float64', n=m), _b=bounds)
+
+    def requires(c, self, lons, lats, _b):
+        # every point lies in some cell (a point outside the grid gets no entry at all: open known finding, C03)
+        B, n = _b.fun, to_z3(_b.shape[0])
+        t, k = z3.Int('t!rq'), z3.Int('k!rq')
+        lon, lat = to_real(lons.f((t,))), to_real(lats.f((t,)))
+        W = c.ctx.fresh_fun('some_cell_of_point', z3.IntSort(), z3.IntSort())
+        return [z3.ForAll([t], z3.Implies(z3.And(0 <= t, t < to_z3(lons.shape[0])),
+                                          z3.And(0 <= W(t), W(t) < n, lon >= B(W(t), 0), lat >= B(W(t), 1), lon < B(W(t), 2),
+                                                 lat < B(W(t), 3))), patterns=[lons.f((t,))])]
+
+    def ensures(c, r, self, lons, lats, _b):
+        B, n, m = _b.fun, to_z3(_b.shape[0]), to_z3(lons.shape[0])
+        yield 'returns an integer array', z3.BoolVal(isinstance(r, Arr) and r.dtype == 'int64')
+        yield 'one index per point', to_z3(r.shape[0]) == m
+        t, k = c.ctx.fresh_int('t!sk'), c.ctx.fresh_int('k!sk')
+        lon, lat = to_real(lons.f((t,))), to_real(lats.f((t,)))
+        ri = to_z3(r.f((t,)))
+        contains = lambda kk: z3.And(lon >= B(kk, 0), lat >= B(kk, 1), lon < B(kk, 2), lat < B(kk, 3))
+        yield 'the reported cell exists and contains the point (west/south inclusive, east/north exclusive)', z3.Implies(
+            z3.And(0 <= t, t < m), z3.And(0 <= ri, ri < n, contains(ri)))
+        yield 'it is the first such cell (the unique one for disjoint cells)', z3.Implies(
+            z3.And(0 <= t, t < m, 0 <= k, k < ri), z3.Not(contains(k)))
